@@ -250,7 +250,8 @@ DefaultCell(ty, r) ==
     [] ty = "date" -> S(<<<<"1","9","9","9">>, <<"2","0","0","1">>, <<"2","0","2","0">>>>[r])
 
 StrSpecialsCore == { <<"s"," ","t">>, <<"s",",","t">>, <<"s","'","t">>, <<"s","\"","t">>, <<"s","\\","t">>,
-                     <<"s","%","t">>, <<"?">>, <<"{","s","}">>, <<"s","~">>, <<" ","s">>, <<"s"," ">>, <<"s","\\">>, <<",","?",",">> }
+                     <<"s","%","t">>, <<"?">>, <<"{","s","}">>, <<"s","~">>, <<" ","s">>, <<"s"," ">>, <<"s","\\">>, <<",","?",",">>,
+                     <<"s","'">>, <<"s","\"">> }      \* a value that ENDS in a quote character (5' / 3"): written escaped inside quotes of its own kind
 StrSpecialsRich == StrSpecialsCore \cup
                    { <<>>, <<" ">>, <<"%","s">>, <<"s","?">>, <<",","?",",">>, <<"'">>, <<"\"">>, <<"\\">>, <<"s","\\">>,
                      <<"'","\"">>, <<"s","'",",","\"","t">>, <<"?",",">>, <<"1">>, <<"{">>, <<"s","\\","'","t">> }
